@@ -9,3 +9,5 @@ import NutsModel.Model.Tree
 import NutsModel.Drv.C01
 import NutsModel.Model.Schedule
 import NutsModel.Drv.C06
+import NutsModel.Model.Kernels
+import NutsModel.Drv.C17
